@@ -29,6 +29,8 @@ import c05 as base  # noqa: E402
 
 KEY_F14 = "c11:first-call-vs-concurrent-func-dir-removal:FileNotFoundError-open-func_code.py"
 KEY_F14B = "c11:memory.cache-vs-concurrent-clear:FileNotFoundError-makedirs-func-dir"
+KEY_F14C = "c11:call-vs-concurrent-clear:FileNotFoundError-makedirs-func-dir-in-_write_func_code"
+F14C_SCHEDULE = [0] * 6 + [1] * 20 + [0] * 4 + [1] + [0] * 400
 C, S = base.C, base.S
 BIG = 400
 
@@ -267,6 +269,20 @@ def base_defs(prep):
     return defs
 
 
+def f14_kind(r, other_removed_dirs):
+    """which known site of the F14 family raised, judged by the call chain: False | 'A' | 'B' | 'C'"""
+    site = r.get("site", [])
+    if r.get("raise") != "FileNotFoundError" or not other_removed_dirs or "store_cached_func_code" not in site:
+        return False
+    if "mkdirp" in site:                       # os.makedirs: parent vanished between its exists() and mkdir()
+        if r.get("where") == "init" or "__init__" in site:
+            return "B"
+        return "C" if "_write_func_code" in site else False
+    if site[-1] == "store_cached_func_code" and r.get("msg", "").rstrip("'").endswith("func_code.py"):
+        return "A"                             # open(func_code.py, 'wb') after the directory vanished
+    return False
+
+
 def judge(prep, res):
     """independent oracle; returns [(what, is_f14_signature)]"""
     bad = []
@@ -280,11 +296,8 @@ def judge(prep, res):
         rs = out["results"]
         if len(rs) != len(acts):
             r0 = rs[0] if rs else {}
-            sig = (r0.get("raise") == "FileNotFoundError" and r0.get("where") == "init"
-                   and r0.get("msg", "").rstrip("'").endswith(("joblib/vmod/f", "joblib/vmod"))
-                   and any(removed_func_dir[j] for j in range(len(removed_func_dir)) if j != i))
-            bad.append(("participant %d: Memory.cache(f) raised while another participant clears: %s" % (i, rs),
-                        "B" if sig else False))
+            sig = f14_kind(r0, any(removed_func_dir[j] for j in range(len(removed_func_dir)) if j != i))
+            bad.append(("participant %d: Memory.cache(f) raised while another participant clears: %s" % (i, rs), sig))
             continue
         for a, r in zip(acts, rs):
             if a["a"] == "reduce" and "raise" in r:
@@ -293,10 +306,9 @@ def judge(prep, res):
             if a["a"] not in ("call", "shelve"):
                 continue
             if "raise" in r:
-                sig = (r["raise"] == "FileNotFoundError" and "func_code.py" in r.get("msg", "")
-                       and any(removed_func_dir[j] for j in range(len(removed_func_dir)) if j != i))
-                bad.append(("participant %d: f(%d) raised %s (%s) because of the concurrent activity"
-                            % (i, a["k"], r["raise"], r.get("msg", "")[:120]), sig))
+                bad.append(("participant %d: f(%d) raised %s (%s) because of the concurrent activity [%s]"
+                            % (i, a["k"], r["raise"], r.get("msg", "")[:120], ">".join(r.get("site", [])[-4:])),
+                            f14_kind(r, any(removed_func_dir[j] for j in range(len(removed_func_dir)) if j != i))))
             elif r.get("ok") != [sess["v"], a["k"]]:
                 bad.append(("participant %d: f(%d) returned %s instead of %s" % (i, a["k"], r.get("ok"), [sess["v"], a["k"]]), False))
     for p, c in res["final"].get("state", []):
@@ -366,6 +378,8 @@ def run(ctx):
     for prep in preps:
         for sched in schedules(ctx.rng, len(prep["parts"]), prep["lens"], budget):
             jobs.append((prep, sched))
+        if prep["name"] == "reduce_age_vs_clear":
+            jobs.append((prep, list(F14C_SCHEDULE)))      # the schedule of C11_no_raise_refuted_makedirs, in every tier
         if prep["name"] == "call_clear":
             # the window of F14: the clearer is inside rmtree(func_dir), the caller between exists() and open()
             for b in range(10, 17 if quick else 30):
@@ -389,7 +403,7 @@ def run(ctx):
         exprs.append(model_expr(prep, res, idx))
         owners.append((prep, res))
     vals = ctx.coq_eval_lines(base.REQ, "\n".join(defs), exprs, name="c11", shard=20)
-    disagreements, oracle_fail, known, known_b = [], [], [], []
+    disagreements, oracle_fail, known, known_b, known_c = [], [], [], [], []
     nontrivial = set()
     dist = {}
     n_exc = 0
@@ -407,6 +421,8 @@ def run(ctx):
             n_exc += 1
             if sig == "B":
                 known_b.append((what, rep))
+            elif sig == "C":
+                known_c.append((what, rep))
             elif sig:
                 known.append((what, rep))
             else:
@@ -417,6 +433,11 @@ def run(ctx):
         ctx.violation("%d schedules: %s" % (len(known), known[0][0]), known[0][1], True, finding_key=KEY_F14)
     if known_b:
         ctx.violation("%d schedules: %s" % (len(known_b), known_b[0][0]), known_b[0][1], True, finding_key=KEY_F14B)
+    if known_c:
+        ctx.violation("%d schedules: %s" % (len(known_c), known_c[0][0]), known_c[0][1], True, finding_key=KEY_F14C)
+    if not any(rep["scenario"] == "reduce_age_vs_clear" and rep["schedule"][:32] == F14C_SCHEDULE[:32] for _, rep in known_c):
+        disagreements.append({"scenario": "reduce_age_vs_clear", "schedule": F14C_SCHEDULE[:32],
+                              "what": "the schedule of C11_no_raise_refuted_makedirs no longer makes the call raise on the implementation"})
     if not any(rep["scenario"] == "f14_witness" for _, rep in known):
         disagreements.append({"scenario": "f14_witness", "schedule": [],
                               "what": "the schedule of C11_no_raise_refuted no longer makes the call raise on the implementation"})
